@@ -190,6 +190,13 @@ def execOp (chk : Bool) (tok : List String) : String :=
       renderRes (fun o => match o with
         | none => "Exhausted"
         | some (f, g) => renderInts f ++ " " ++ renderInts g) (KeygenSkel.firstCandidate chk (parseNat n) sd)
+  | ["sign_basis", n, r0, r1, r2, r3, msg, seed, len] =>
+      let b0 := [parseInts r0, parseInts r1, parseInts r2, parseInts r3]
+      let stream := (SignFlt.Prng.new (parseNat seed).toUInt64).bytes (parseNat len)
+      match SignFlt.sign chk (parseNat n) b0 (parseHex msg) stream with
+      | .panic k => "panic " ++ toString (repr k)
+      | .ok (.error e) => e
+      | .ok (.ok (sig, rej, retries, _)) => s!"{renderHex sig} {rej + retries + 1} {retries}"
   | ["sign_model", n, _, r0, r1, r2, r3, msg, seed, len, pk] =>
       let N := parseNat n
       let b0 := [parseInts r0, parseInts r1, parseInts r2, parseInts r3]
